@@ -28,7 +28,7 @@ META = {
             "decoder_fuel_never_exhausted, index_iterator_fuel_never_exhausted; the two loops whose 0 branch is a base case / "
             "the truncated-input answer need one more unit and the statement says so; fuel independence kept as "
             "decoder_fuel_independent); probability-array index formulas (literal_subcoder, dist/align/len coders) are in "
-            "bounds for lc+lp<=4; one LZMA symbol reads at most LZMA_IN_REQUIRED=20 bytes (on the 203 bit shapes and on the executable "
+            "bounds for lc+lp<=4; one LZMA symbol reads at most 20 bytes, and 20 <= the source's LZMA_IN_REQUIRED (on the 203 bit shapes and on the executable "
             "symbol decoder itself); every seek request of the file-info decoder model lies inside the file; probabilities stay in [31,2017]; VLI "
             "decoding never exceeds 63 bits; Block Header size bounds; the Index record count is checked against the memory limit "
             "before anything is allocated; dictionary indices stay inside the allocation; lzma_code turns a second no-progress call "
